@@ -266,11 +266,9 @@ func genSlSend(g *genCtx) {
 			case 'T':
 				r = rsp(fn, cmdNo, 0xC3, bodyB)
 			case 'X':
-				if g.rng.Intn(2) == 0 {
-					r = rsp(fn^2, cmdNo, 0, []byte{0x99})
-				} else {
-					r = rsp(fn, cmdNo+1, 0, []byte{0x99})
-				}
+				fn2, cmd2, prefix2, cc2, data2 := strayReply(g, fn, cmdNo, prefix)
+				c := cc2
+				r = wrapSessionless(0, specMessage(0x81, fn2|1, 0, 0x20, 1, 0, cmd2, &c, prefix2, data2))
 			case 'G':
 				r = [][]byte{{6, 0, 0xff}, {6, 0, 0xff, 7}, {0}, rbytes(g.rng, 24)}[g.rng.Intn(4)]
 			case 'K':
